@@ -1,9 +1,14 @@
 use super::*;
 use crate::logging;
+#[cfg(not(sentinel_verif))]
 use std::sync::{
     atomic::{AtomicU64, Ordering},
     Arc, Mutex,
 };
+#[cfg(sentinel_verif)]
+use std::sync::{atomic::Ordering, Arc};
+#[cfg(sentinel_verif)]
+use crate::verif_sync::{AtomicU64, Mutex};
 
 #[derive(Debug)]
 pub struct ErrorRatioBreaker {
